@@ -147,9 +147,16 @@ func (p *copyProp) Gen(r *Rand, tier string, idx int) any {
 		}
 	}
 	remote := cp.SrcKind == "remote" || cp.DstKind == "remote"
+	if cp.SrcKind == "remote" && (p.id == "C03" || r.Chance(0.3)) {
+		o.Fanout = r.Bool() // several referrers of one subject: the registry lists them page by page
+	}
 	if remote {
 		o.NoTwins, o.OneDigest, o.NoForeign = true, true, false
-		cp.RegProfile = &RegProfile{ReferrersAPI: true, OCISubject: true, DigestHeader: true, Range: r.Bool(), MountOK: r.Bool(), Location: pick(r, []string{"relative", "absolute", "query"})}
+		cp.RegProfile = &RegProfile{ReferrersAPI: true, OCISubject: true, DigestHeader: true, Range: r.Bool(), MountOK: r.Bool(), Location: pick(r, []string{"relative", "absolute", "query"}),
+			RefCap: pick(r, []int{0, 0, 1, 2}), LinkForm: r.Intn(8)}
+	}
+	if o.Fanout && cp.RegProfile != nil {
+		cp.RegProfile.RefCap = r.Range(1, 2)
 	}
 	cp.Graph = *GenGraph(r, o)
 	g := cp.Graph.Build()
@@ -951,6 +958,12 @@ func (p *copyProp) runInBubble(rc *RunCtx, sc *Scenario, cp *CopyParams, g *Grap
 			return v
 		}
 		after := presentSet(env)
+		if env.src.reg != nil && env.src.reg.PagedReferrers > 0 {
+			info.Probes["src_referrers_listing_paged"]++
+			if cp.FilterAnnK != "" || cp.FilterAT != "" {
+				info.Probes["src_referrers_listing_paged_under_filter"]++
+			}
+		}
 		if upper != nil {
 			for _, i := range sortedKeys(after) {
 				if !before[i] && !upper[i] {
